@@ -15,6 +15,7 @@ DEFECT SWITCHES (all `false` = the code as it is on the pinned tree):
 * `TokCfg.dupCompareQName`   — `finish_attribute` compares the new raw name with the *local part*
   of the earlier attributes (DESIGN 1.3 item 14).  `true` = proposed fix (compare the whole
   qualified name).
+* `TokCfg.frontNeedsNoPrefix` — companion of the next one on the tokenizer side.
 * `TbCfg.declNeedsNoPrefix`  — `process_namespaces` treats every attribute whose *local* name is
   `xmlns` (whatever its prefix) as a namespace declaration and drops it.  `true` = proposed fix
   (`p:xmlns` is an ordinary attribute).
@@ -104,16 +105,25 @@ structure RawAttr where
 deriving Repr, DecidableEq
 
 structure TokCfg where
-  /-- `false`: the code as it is (compare raw name with `a.name.loc`) -/
+  /-- `false`: the code as it is (compare the raw name with `a.name.local`) -/
   dupCompareQName : Bool
+  /-- `false`: the code as it is — every attribute with *local* name `xmlns` (also `q:xmlns`) is moved
+  to the front of the attribute list (tokenizer/mod.rs:1302-1305).  Invisible as long as
+  `process_namespaces` drops such attributes; must be fixed together with `TbCfg.declNeedsNoPrefix`
+  or `q:xmlns` changes its position among the attributes. -/
+  frontNeedsNoPrefix : Bool
 deriving Repr, DecidableEq
 
 /-- the pinned tree -/
-def TokCfg.code : TokCfg := ⟨false⟩
-/-- with the proposed fix of item 14 -/
-def TokCfg.fixed : TokCfg := ⟨true⟩
+def TokCfg.code : TokCfg := ⟨false, false⟩
+/-- with the proposed fixes (item 14; `q:xmlns` is an ordinary attribute) -/
+def TokCfg.fixed : TokCfg := ⟨true, true⟩
+/-- ***SWITCH***: what the drivers (correspondence) run.  Set to `TokCfg.fixed` (or a mixture) once
+the fix is committed in /repo. -/
+def TokCfg.current : TokCfg := TokCfg.code
 
-def isDeclName (n : RName) : Bool := n.loc == sXmlns || n.pfx == some sXmlns
+def isDeclName (cfg : TokCfg) (n : RName) : Bool :=
+  (n.loc == sXmlns && (!cfg.frontNeedsNoPrefix || n.pfx == none)) || n.pfx == some sXmlns
 
 /-- the duplicate test of `finish_attribute` (tokenizer/mod.rs:1279-1286) -/
 def isDup (cfg : TokCfg) (attrs : List RAttr) (raw : Str) : Bool :=
@@ -121,14 +131,14 @@ def isDup (cfg : TokCfg) (attrs : List RAttr) (raw : Str) : Bool :=
   else attrs.any (fun b => b.name.loc == raw)
 
 /-- declarations go to the front, everything else to the back (tokenizer/mod.rs:1302-1308) -/
-def pushAttr (attrs : List RAttr) (t : RAttr) : List RAttr :=
-  if isDeclName t.name then t :: attrs else attrs ++ [t]
+def pushAttr (cfg : TokCfg) (attrs : List RAttr) (t : RAttr) : List RAttr :=
+  if isDeclName cfg t.name then t :: attrs else attrs ++ [t]
 
 /-- `finish_attribute` (tokenizer/mod.rs:1271-1310) -/
 def finishAttribute (cfg : TokCfg) (attrs : List RAttr) (a : RawAttr) : List RAttr :=
   if a.name = [] then attrs
   else if isDup cfg attrs a.name then attrs
-  else pushAttr attrs ⟨splitQName a.name, a.value⟩
+  else pushAttr cfg attrs ⟨splitQName a.name, a.value⟩
 
 /-- the attribute list of the emitted tag, from the attributes in source order -/
 def tagAttrs (cfg : TokCfg) (raw : List RawAttr) : List RAttr :=
@@ -193,6 +203,8 @@ deriving Repr, DecidableEq
 
 def TbCfg.code : TbCfg := ⟨false⟩
 def TbCfg.fixed : TbCfg := ⟨true⟩
+/-- ***SWITCH***: what the drivers (correspondence) run -/
+def TbCfg.current : TbCfg := TbCfg.code
 
 /-- the filter of `process_namespaces` (mod.rs:331-334 / 339-342) -/
 def isDeclLike (cfg : TbCfg) (a : RAttr) : Bool :=
